@@ -39,8 +39,9 @@ class NodeRes:
         return vals
 
 
-def own_expansion(nd, res):
-    """own splitter -> (list of {axis: idx}, axes list, {field: (axis, values | ("node", U))})"""
+def own_expansion(nd, res, min1=False):
+    """own splitter -> (list of {axis: idx}, axes list, {field: (axis, values | ("node", U))});
+    min1: treat empty lists as one-element lists (used only to enumerate the *other* axes of a node that runs no job)"""
     sp = nd.get("split")
     if not sp:
         return [{}], [], {}
@@ -48,7 +49,7 @@ def own_expansion(nd, res):
     for f, r in sp["vals"].items():
         if r[0] == "lit":
             vals[f] = r[1]
-            lens[f] = len(r[1])
+            lens[f] = max(1, len(r[1])) if min1 else len(r[1])
         elif r[0] == "node":
             # split over the list output of an upstream (uncombined, list-producing) node: every upstream
             # job contributes the same number of elements
@@ -105,6 +106,7 @@ def evaluate(spec, wfin=None, jobs_out=None):
                 if k not in axes:
                     axes.append(k)
         own, own_axes, fieldax = own_expansion(nd, res)
+        inherited = cur
         cur = [{**c, **o} for c in cur for o in own]
         axes = axes + own_axes
         jobs = []
@@ -152,8 +154,14 @@ def evaluate(spec, wfin=None, jobs_out=None):
             groups.setdefault(tuple((ax, c[ax]) for ax in rem), []).append(out)
         combined = len(rem) < len(axes)
         table = OrderedDict((k, (v if combined else v[0])) for k, v in groups.items())
-        if combined and not rem and not jobs:
-            table[()] = []          # every axis combined and nothing ran: one empty list
+        if combined and not jobs:
+            # nothing ran (a split over an empty list).  The nested loops still visit every assignment of the axes that
+            # remain after the combiner - unless one of *those* is empty - and collect an empty list for each
+            own1, _, _ = own_expansion(nd, res, min1=True)
+            empty_axes = {ax for ax, vals in fieldax.values() if isinstance(vals, list) and not vals}
+            if not any(ax in rem for ax in empty_axes):
+                for c in [{**c0, **o} for c0 in inherited for o in own1]:
+                    table.setdefault(tuple((ax, c[ax]) for ax in rem), [])
         nr = NodeRes(name, axes, [(c, t) for c, t, _ in jobs if t is not None], rem, table, combined)
         nr.list_len = nd.get("n", 2) if kind == "L" and not combined else None
         res[name] = nr
